@@ -282,6 +282,15 @@ def cases(tier):
         if KINDS[kind]["link"] or kind in AB_KINDS:
             out.append({"kind": kind, "names": N12, "ops": big, "hp": "AAA"})
     out.append({"kind": "dims11", "names": [], "ops": [], "hp": None})
+    # containers with more members than any page / batch size one might think of (130, thorough 300)
+    NBIG = 130 if tier == "quick" else 300
+    NH = ["m%03d" % i for i in range(NBIG)]
+    huge = [["create", i] for i in range(NBIG)] + [["delete", 128, "name"], ["delete", 64, "id"], ["reopen"], ["create", 128], ["delete", 0, "idx"]]
+    for kind in KINDS:
+        if not KINDS[kind]["link"] and "@2" not in kind and "@3" not in kind:
+            out.append({"kind": kind, "names": NH, "ops": huge, "hp": None, "check_from": NBIG - 1})
+    for kind in ("group.data_arrays", "tag.references", "data_array.sources@nested", "group.sources"):
+        out.append({"kind": kind, "names": NH, "ops": huge, "hp": None, "check_from": NBIG - 1})
     for kind in KINDS:
         ab = KINDS[kind]["link"] or kind in AB_KINDS
         if tier == "quick":
@@ -630,6 +639,8 @@ def run_case(case):
                 r.outcomes.add("reopen")
             if case.get("quiet") and op[0] == "delete" and not last:
                 continue
+            if i < case.get("check_from", 0):
+                continue            # huge containers: the container is verified once it is full, and after every later step
             absent = [nm for nm in names if not any(m[0] == nm for m in model)] + ["nope"]
             ok = check_container(r, kind, c, model, absent, "after-" + op[0] + ("-" + op[2] if op[0] == "delete" else ""), K["link"], gone)
             if ok and hp:
